@@ -315,6 +315,10 @@ func vxWalkExtra(path string) {
 	panic("vxWalkExtra: environment-model function, not available in native replay")
 }
 
+func vxWalkExtraKind(kind int) {
+	panic("vxWalkExtraKind: environment-model function, not available in native replay")
+}
+
 func vxClockSymbolic(on bool) {
 	
 }
